@@ -46,6 +46,8 @@ class DecPart(Part):
         """C02/C10 facts checkable on the implementation's observation alone"""
         if "9999" in obs.split(";"):
             return "0,1"                                  # panic / overflow
+        if obs == "95":
+            return "0,14"                                 # decode keeps producing items without consuming input
         f = parse_fields(obs)
         c = parse_fields(case)
         stream_len = len(c[2]) if len(c) > 2 else 0
@@ -376,6 +378,7 @@ DEC_CLAUSES = {
     "8": "the final flag of a payload piece is wrong (pieces do not add up to the declared size)",
     "9": "unparsable publish item",
     "10": "a non-final payload piece is smaller than min_chunk_size",
+    "14": "the decoder keeps producing items without consuming input (an endless stream of empty payload pieces)",
     "13": "a frame whose Remaining Length exceeds the configured inbound maximum was delivered instead of rejected",
 }
 
